@@ -22,6 +22,7 @@ import (
 	"go/token"
 	"go/types"
 	"math"
+	"sort"
 	"strings"
 )
 
@@ -36,7 +37,7 @@ func init() {
 		for _, fd := range g.funcDecls() {
 			decls[recvName(fd)+"."+fd.Name.Name] = fd
 		}
-		g.rtmpParseTable(decls["Protocol.parseAMFObject"])
+		g.rtmpParseTable(decls["Protocol.parseAMFObject"], decls)
 		g.rtmpDecodeTable(decls["Protocol.DecodeMessage"])
 		g.rtmpRequestTypes(decls[".requestTransaction"])
 		for _, c := range []string{"NewConnectAppPacket", "NewConnectAppResPacket", "NewCallPacket", "NewCloseStreamPacket",
@@ -92,7 +93,7 @@ func pairList(ps [][2]string) string {
 	return "[" + strings.Join(items, "; ") + "]"
 }
 
-func (g *gen) rtmpParseTable(fd *ast.FuncDecl) {
+func (g *gen) rtmpParseTable(fd *ast.FuncDecl, decls map[string]*ast.FuncDecl) {
 	bad := func(why string) {
 		g.pf("Definition rtmp_tbl_parse_unsupported := tt. (* %s *)\n", why)
 	}
@@ -149,9 +150,14 @@ func (g *gen) rtmpParseTable(fd *ast.FuncDecl) {
 		haveLookup = true
 		responses = cs
 		var inner *ast.SwitchStmt
-		lookupPos, deletePos := token.NoPos, token.NoPos
-		for _, st := range c.Body {
-			ast.Inspect(st, func(n ast.Node) bool {
+		// the lookup and the delete may sit in the clause itself (also inside a closure) or in an
+		// unexported helper method of Protocol called from it (followed one level); within the
+		// function that holds them the delete must come after the lookup
+		haveLookupHere, consumesHere := false, false
+		var scan func(body ast.Node, follow bool)
+		scan = func(body ast.Node, follow bool) {
+			lookupPos, deletePos := token.NoPos, token.NoPos
+			ast.Inspect(body, func(n ast.Node) bool {
 				switch x := n.(type) {
 				case *ast.SwitchStmt:
 					if id, ok := x.Tag.(*ast.Ident); ok && id.Name == "requestName" {
@@ -163,6 +169,11 @@ func (g *gen) rtmpParseTable(fd *ast.FuncDecl) {
 							deletePos = x.Pos()
 						}
 					}
+					if se, ok := x.Fun.(*ast.SelectorExpr); ok && follow {
+						if h := decls["Protocol."+se.Sel.Name]; h != nil && !ast.IsExported(se.Sel.Name) && h != fd {
+							scan(h.Body, false)
+						}
+					}
 				case *ast.IndexExpr:
 					if strings.HasSuffix(exprText(x.X), "transactions") && lookupPos == token.NoPos {
 						lookupPos = x.Pos()
@@ -170,12 +181,25 @@ func (g *gen) rtmpParseTable(fd *ast.FuncDecl) {
 				}
 				return true
 			})
+			if lookupPos != token.NoPos {
+				haveLookupHere = true
+				if deletePos != token.NoPos && deletePos > lookupPos {
+					consumesHere = true
+				}
+			}
+		}
+		for _, st := range c.Body {
+			scan(st, true)
+		}
+		lookupPos := token.NoPos
+		if haveLookupHere {
+			lookupPos = c.Pos()
 		}
 		if inner == nil || lookupPos == token.NoPos {
 			bad("lookup clause without transactions[...] / switch requestName")
 			return
 		}
-		consumes = deletePos != token.NoPos && deletePos > lookupPos
+		consumes = consumesHere
 		for _, icc := range inner.Body.List {
 			ic := icc.(*ast.CaseClause)
 			if ic.List == nil {
@@ -204,6 +228,13 @@ func (g *gen) rtmpParseTable(fd *ast.FuncDecl) {
 		bad("missing default or lookup clause")
 		return
 	}
+	// canonical form: the clauses of a switch on distinct constants may be written in any order
+	sortPairs := func(ps [][2]string) {
+		sort.Slice(ps, func(i, j int) bool { return ps[i][0] < ps[j][0] })
+	}
+	sortPairs(names)
+	sortPairs(requests)
+	sort.Strings(responses)
 	g.pf("Definition rtmp_tbl_parse_names : list (string * string) := %s.\n", pairList(names))
 	g.pf("Definition rtmp_tbl_parse_default : string := %s.\n", coqStr(def))
 	var rs []string
@@ -233,15 +264,20 @@ func (g *gen) rtmpDecodeTable(fd *ast.FuncDecl) {
 		bad("DecodeMessage not found")
 		return
 	}
-	intConst := func(e ast.Expr) (string, bool) {
+	intConst := func(e ast.Expr) (int64, bool) {
 		tv, ok := g.p.TypesInfo.Types[e]
 		if !ok || tv.Value == nil || tv.Value.Kind() != constant.Int {
-			return "", false
+			return 0, false
 		}
-		return coqZ(tv.Value), true
+		v, ok := constant.Int64Val(tv.Value)
+		return v, ok
 	}
-	var skip []string
-	var types [][2]string
+	// The dispatch may be written as one switch on m.MessageType or several in a row, with
+	// `fallthrough`, the labels in any order.  Every switch is executed symbolically for each
+	// label: `p = p[1:]` marks the type as "payload advanced by one before the decode",
+	// `pkt = NewXxx()` / `pkt, err = v.parseAMFObject(p)` is its receiver.
+	skip := map[int64]bool{}
+	recv := map[int64]string{}
 	nsw := 0
 	for _, st := range fd.Body.List {
 		sw, ok := st.(*ast.SwitchStmt)
@@ -249,9 +285,10 @@ func (g *gen) rtmpDecodeTable(fd *ast.FuncDecl) {
 			continue
 		}
 		nsw++
-		for _, cc := range sw.Body.List {
+		clauses := sw.Body.List
+		for ci, cc := range clauses {
 			c := cc.(*ast.CaseClause)
-			var labels []string
+			var labels []int64
 			for _, e := range c.List {
 				v, ok := intConst(e)
 				if !ok {
@@ -260,58 +297,107 @@ func (g *gen) rtmpDecodeTable(fd *ast.FuncDecl) {
 				}
 				labels = append(labels, v)
 			}
-			if len(c.Body) != 1 {
-				bad("clause with more than one statement")
-				return
+			if c.List == nil {
+				// default: must only return an error
+				for _, s := range c.Body {
+					if _, ok := s.(*ast.ReturnStmt); !ok {
+						bad("default clause does more than return")
+						return
+					}
+				}
+				continue
 			}
-			switch s := c.Body[0].(type) {
-			case *ast.AssignStmt:
-				// p = p[1:]   or   pkt = NewXxx()
-				if len(s.Lhs) == 1 && len(s.Rhs) == 1 {
-					if se, ok := s.Rhs[0].(*ast.SliceExpr); ok && exprText(s.Lhs[0]) == "p" && exprText(se.X) == "p" && se.High == nil {
-						if lo, ok := intConst(se.Low); ok && lo == "1" {
-							skip = append(skip, labels...)
+			// run the clause, following fallthrough into the next clauses
+			for k := ci; k < len(clauses); k++ {
+				body := clauses[k].(*ast.CaseClause).Body
+				falls := false
+				for _, s := range body {
+					switch s := s.(type) {
+					case *ast.BranchStmt:
+						if s.Tok == token.FALLTHROUGH {
+							falls = true
 							continue
 						}
-					}
-					if call, ok := s.Rhs[0].(*ast.CallExpr); ok && exprText(s.Lhs[0]) == "pkt" && len(call.Args) == 0 {
-						for _, l := range labels {
-							types = append(types, [2]string{l, coqStr(exprText(call.Fun))})
+						bad("unrecognised branch statement")
+						return
+					case *ast.AssignStmt:
+						if len(s.Lhs) == 1 && len(s.Rhs) == 1 {
+							if se, ok := s.Rhs[0].(*ast.SliceExpr); ok && exprText(s.Lhs[0]) == "p" && exprText(se.X) == "p" && se.High == nil {
+								if lo, ok := intConst(se.Low); ok && lo == 1 {
+									for _, l := range labels {
+										if skip[l] || recv[l] != "" {
+											bad("payload advanced twice or after the receiver was chosen")
+											return
+										}
+										skip[l] = true
+									}
+									continue
+								}
+							}
+							if call, ok := s.Rhs[0].(*ast.CallExpr); ok && exprText(s.Lhs[0]) == "pkt" && len(call.Args) == 0 {
+								for _, l := range labels {
+									if recv[l] != "" {
+										bad("two receivers for one type")
+										return
+									}
+									recv[l] = exprText(call.Fun)
+								}
+								continue
+							}
 						}
-						continue
-					}
-				}
-				bad("unrecognised assignment")
-				return
-			case *ast.IfStmt:
-				// if pkt, err = v.parseAMFObject(p); err != nil { return ... }
-				as, ok := s.Init.(*ast.AssignStmt)
-				if ok && len(as.Rhs) == 1 {
-					if call, ok := as.Rhs[0].(*ast.CallExpr); ok && exprText(call.Fun) == "v.parseAMFObject" {
-						for _, l := range labels {
-							types = append(types, [2]string{l, coqStr("parseAMFObject")})
+						bad("unrecognised assignment")
+						return
+					case *ast.IfStmt:
+						as, ok := s.Init.(*ast.AssignStmt)
+						if ok && len(as.Rhs) == 1 {
+							if call, ok := as.Rhs[0].(*ast.CallExpr); ok && exprText(call.Fun) == "v.parseAMFObject" {
+								for _, l := range labels {
+									if recv[l] != "" {
+										bad("two receivers for one type")
+										return
+									}
+									recv[l] = "parseAMFObject"
+								}
+								continue
+							}
 						}
-						continue
+						bad("unrecognised if clause")
+						return
+					default:
+						bad("unrecognised clause")
+						return
 					}
 				}
-				bad("unrecognised if clause")
-				return
-			case *ast.ReturnStmt:
-				if c.List != nil {
-					bad("non-default clause returns")
-					return
+				if !falls {
+					break
 				}
-			default:
-				bad("unrecognised clause")
-				return
 			}
 		}
 	}
-	if nsw != 2 {
-		bad(fmt.Sprintf("%d switches on m.MessageType, expected 2", nsw))
+	if nsw == 0 {
+		bad("no switch on m.MessageType")
 		return
 	}
-	g.pf("Definition rtmp_tbl_decode_skip : list Z := [%s].\n", strings.Join(skip, "; "))
+	var sk []int64
+	for l := range skip {
+		sk = append(sk, l)
+	}
+	sort.Slice(sk, func(i, j int) bool { return sk[i] < sk[j] })
+	var skips []string
+	for _, l := range sk {
+		skips = append(skips, fmt.Sprint(l))
+	}
+	var ts []int64
+	for l := range recv {
+		ts = append(ts, l)
+	}
+	sort.Slice(ts, func(i, j int) bool { return ts[i] < ts[j] })
+	var types [][2]string
+	for _, l := range ts {
+		types = append(types, [2]string{fmt.Sprint(l), coqStr(recv[l])})
+	}
+	// canonical form: both tables sorted by message type
+	g.pf("Definition rtmp_tbl_decode_skip : list Z := [%s].\n", strings.Join(skips, "; "))
 	g.pf("Definition rtmp_tbl_decode_types : list (Z * string) := %s.\n", pairList(types))
 }
 
